@@ -317,7 +317,9 @@ def main(argv=None):
         assumptions=["dtype facts do not depend on values (NEP 50): one representative value per configuration"],
         outside=["float rounding differences between the two formulations"],
     )
-    return common.main(PROP, "harness.C14", cs, args.tier, args.seed, describe, extra_evidence=extra,
+    from symnp import selftest
+
+    return common.main(PROP, "harness.C14", cs, args.tier, args.seed, describe, preflight=selftest.run, extra_evidence=extra,
                        deadline_s=900 if args.tier == "quick" else 3000)
 
 
